@@ -696,29 +696,41 @@ def run(ctx, only_oracle=False):
     for rel, nv, big in SHIPPED:
         path = str(core.REPO / 'tests' / rel)
         text = read_text(path)
-        inc = real_read(path, nv, True, limit=120)
-        rd = dump_real(inc)
+        case = {'shipped': rel, 'nv': nv}
         res.evaluations += 1
         res.count('kind:shipped')
         res.distinct.add('shipped:' + rel)
         reset = False
         p2, p3 = os.path.join(tmp, 's2.incon'), os.path.join(tmp, 's3.incon')
-        with contextlib.redirect_stdout(io.StringIO()): inc.write(p2, reset)
-        t2 = read_text(p2)
-        inc3 = real_read(p2, nv, True, limit=120)
-        with contextlib.redirect_stdout(io.StringIO()): inc3.write(p3, reset)
-        t3 = read_text(p3)
-        case = {'shipped': rel, 'nv': nv}
-        d3 = dump_real(inc3)
-        if d3 != rd:
-            res.violations.append(dict(key='shipped-roundtrip', what='%s: read -> write -> read gives a different state' % rel, case=case))
-        if t3 != t2:
-            res.violations.append(dict(key='shipped-rewrite', what='%s: the second written generation differs from the first' % rel, case=case))
+        rd = t2 = None
+        step = 'read'
+        try:
+            inc = real_read(path, nv, True, limit=120)
+            rd = dump_real(inc)
+            step = 'write'
+            with contextlib.redirect_stdout(io.StringIO()): inc.write(p2, reset)
+            t2 = read_text(p2)
+            step = 'read of the written file'
+            inc3 = real_read(p2, nv, True, limit=120)
+            d3 = dump_real(inc3)
+            step = 'second write'
+            with contextlib.redirect_stdout(io.StringIO()): inc3.write(p3, reset)
+            t3 = read_text(p3)
+            if d3 != rd:
+                res.violations.append(dict(key='shipped-roundtrip', what='%s: read -> write -> read gives a different state' % rel, case=case))
+            if t3 != t2:
+                res.violations.append(dict(key='shipped-rewrite', what='%s: the second written generation differs from the first' % rel, case=case))
+        except Exception as e:
+            name = 'HANG' if str(e) == 'HANG' else type(e).__name__
+            res.violations.append(dict(key='shipped-raises:' + name, what='%s: %s raises %s' % (rel, step, name), case=case))
+            if rd is None: rd = 'exc ' + name
+            if t2 is None and step != 'read': t2 = 'exc ' + name
         if (not big) or not ctx.quick:
             lines.append('r f s%s %s 1 t%s' % (hexs('TOUGH2'), 'n' if nv is None else str(nv), hexs(text)))
             meta.append(('incon_read', rd, {'kind': 'shipped', 'file': rel}))
-            lines.append('rw f s%s %s 1 0 t%s' % (hexs('TOUGH2'), 'n' if nv is None else str(nv), hexs(text)))
-            meta.append(('incon_rewrite', t2, {'kind': 'shipped', 'file': rel}))
+            if t2 is not None:
+                lines.append('rw f s%s %s 1 0 t%s' % (hexs('TOUGH2'), 'n' if nv is None else str(nv), hexs(text)))
+                meta.append(('incon_rewrite', t2, {'kind': 'shipped', 'file': rel}))
 
     if ctx.model_ok and not only_oracle:
         out = core.run_driver('drv_c13', lines)
@@ -754,8 +766,18 @@ def search(ctx, seconds, res):
 def replay(ctx, payload):
     c = payload.get('case') or {}
     if 'shipped' in c:
-        c2 = core.Ctx(ctx.prop, 'quick', 0)
-        return False, 'shipped-file case: re-run the check (%s)' % c['shipped']
+        import t2incons
+        path = str(core.REPO / 'tests' / c['shipped'])
+        p2, p3 = os.path.join(str(ctx.tmp), 'r2.incon'), os.path.join(str(ctx.tmp), 'r3.incon')
+        try:
+            inc = real_read(path, c.get('nv'), True, limit=120)
+            with contextlib.redirect_stdout(io.StringIO()): inc.write(p2, False)
+            inc3 = real_read(p2, c.get('nv'), True, limit=120)
+            with contextlib.redirect_stdout(io.StringIO()): inc3.write(p3, False)
+            bad = dump_real(inc3) != dump_real(inc) or read_text(p2) != read_text(p3)
+            return bad, '%s: read -> write -> read -> write %s' % (c['shipped'], 'differs' if bad else 'is stable')
+        except Exception as e:
+            return True, '%s: raises %s' % (c['shipped'], 'HANG' if str(e) == 'HANG' else type(e).__name__)
     if 'blocks' not in c:
         return False, 'replay file names what no longer checks: %s' % payload.get('broken')
     case = dict(c)
